@@ -433,6 +433,18 @@ def run(prog: Program, res: Result) -> None:  # noqa: PLR0912, PLR0915
         else:
             res.ok("C12.R6", f"{c.file}:{gs.node.lineno} {c.name}.{gs.name}", what, "all slots mentioned")
     res.floor("C12.R6", "pickle obligations", n_pk, 40)
+    # calling a subscripted generic class stores the alias (with any forward reference) on the instance as __orig_class__:
+    # objects reachable from a Template (env -> loader -> cache) then cannot be pickled
+    n_gen = 0
+    for mod_ in prog.modules.values():
+        for c_ in ast.walk(mod_.tree):
+            if isinstance(c_, ast.Call):
+                n_gen += 1
+                if isinstance(c_.func, ast.Subscript) and isinstance(c_.func.value, (ast.Name, ast.Attribute)):
+                    r_ = prog.resolve(mod_, dotted(c_.func.value) or "")
+                    if isinstance(r_, ClassInfo):
+                        res.fail("C12.R6", file=mod_.relpath, line=c_.lineno, qualname=prog.qual_at(mod_, c_), construct=f"{norm(c_.func, 50)}(…) instantiates a subscripted generic", message=f"`{norm(c_, 60)}` calls a subscripted generic class: the instance keeps the alias as __orig_class__ (here with a string forward reference), so it - and every Template whose environment reaches it - cannot be pickled", what="no instantiation of a subscripted generic class")
+    res.floor("C12.R6", "calls scanned for subscripted-generic instantiation", n_gen, 3000)
 
     # ------------------------------------------------------------------ R7 truthiness of AST objects
     res.rule("C12.R7", "AST nodes keep default (always-true) truthiness: printers and renderers test optional children with `if self.x:`, so a Node/Expression class defining __bool__/__len__ makes an empty child disappear from str(template)")
